@@ -256,8 +256,11 @@ func (s *fnStash) clone(c *cloner) stasher {
 	}
 	*out = fnStash{
 		dclStash:            *dclStash,
-		arguments:           c.object(s.arguments),
 		indexOfArgumentName: index,
+	}
+	// arguments is nil when the function has a formal parameter named "arguments".
+	if s.arguments != nil {
+		out.arguments = c.object(s.arguments)
 	}
 	return out
 }
